@@ -14,6 +14,8 @@ import (
 	"strconv"
 	"strings"
 
+	"github.com/go-logr/logr"
+	"k8s.io/klog/v2"
 	"sigs.k8s.io/yaml"
 
 	"helm.sh/helm/v4/pkg/action"
@@ -37,7 +39,8 @@ func init() {
 			"x {all in user values, all in the chart's own values.yaml}. Part B (gate placement): a reduced schema list (each keyword alone and combined) x 13 placements (root, root with subchart, " +
 			"root with crds/, subchart without/with condition on/off by defaults/by user, alias, sub-subchart, parent off, leaf off, root+sub both constrained) x 8 contents x every route " +
 			"(user float64/int64/json.Number/1.0, -f and --set through cli/values.MergeValues, own defaults, parent's section, root's section, overriding pairs, key-wise split, merged object). " +
-			"Part C: .global.g constrained in a subchart x global arriving from user/root defaults/own defaults. Every (schema, tree) pair x {install, install --dry-run, template, upgrade after a " +
+			"Part C: .global.g constrained in a subchart x global arriving from user/root defaults/own defaults. Part D: part B's schemas x {root, sub, root with crds/} x 9 contents x {U, D} on the Secrets and " +
+			"ConfigMaps storage drivers (cluster-touching entries only). Every (schema, tree) pair x {install, install --dry-run, template, upgrade after a " +
 			"valid install, upgrade reusing stored values, lint} x skip-schema-validation off/on. distinct = (schema text, chart tree, layers, entry, skip) with a schema that constrains something",
 		Run:    run,
 		Replay: replay,
@@ -47,7 +50,7 @@ func init() {
 			"a number with zero fractional part (1.0, json.Number(\"1.0\")) is an integer, as JSON Schema says",
 			"additionalProperties:false at the root of a schema is only generated for a root chart without subcharts (Helm adds a section per subchart and a 'global' table to the values it validates)",
 			"with several charts violated at once, an error naming any one of them is accepted; an aliased subchart may be named by alias or by chart name",
-			"install/upgrade run through hx.World.Exec (real kube.Client over the simulated API server, Secrets storage); lint runs action.Lint.Run on the chart written with chartutil.SaveDir",
+			"install/upgrade run through hx.World.Exec (real kube.Client over the simulated API server; Memory storage in parts A-C, Secrets and ConfigMaps storage in part D); lint runs action.Lint.Run on the chart written with chartutil.SaveDir",
 			"chart defaults reach install/upgrade as float64 (hx.ChartSpec.Build) and reach lint as json.Number (real loader); user numbers are enumerated as float64, int64, json.Number",
 		},
 		RequiredFloors: []string{
@@ -76,6 +79,8 @@ type Case struct {
 	CLI   string `json:"cli,omitempty"` // "" | file | set
 	Entry string `json:"entry"`
 	Skip  bool   `json:"skip"`
+	// Driver: storage driver of the world ("" = memory).
+	Driver string `json:"driver,omitempty"`
 }
 
 type replayData struct {
@@ -85,7 +90,9 @@ type replayData struct {
 
 type finding struct {
 	Kind string // accepted-invalid | unnamed-chart | sent-before-reject | state-changed | rejected-valid | skip-not-honoured | unexpected-error
-	Src  string
+	Src  string // layer that supplied the offending value (reported, not part of the key)
+	Sent string // first request/record written (sent-before-reject)
+	Rep  string // number representation / CLI route, when the finding disappears with plain float64 user values
 	Text string
 }
 
@@ -100,6 +107,13 @@ type outcome struct {
 	Findings []finding
 }
 
+func (cs Case) driver() string {
+	if cs.Driver == "" {
+		return "memory"
+	}
+	return cs.Driver
+}
+
 func (cs Case) entryName() string {
 	if cs.Skip {
 		return cs.Entry + "+skip"
@@ -112,14 +126,14 @@ var entriesAll = []string{"install", "install-dry", "template", "upgrade", "lint
 const schemaErrMark = "values don't meet the specifications of the schema"
 
 type env struct {
-	base    *hx.World // a world with release r installed from the schema-less chart
-	tmpRoot string
-	lintKey string
-	lintDir string
-	lintN   int
+	base      map[string]*hx.World // per driver: a world with release r installed from the schema-less chart
+	tmpRoot   string
+	lintKey   string
+	lintDir   string
+	lintShape string
 }
 
-func newEnv() *env { return &env{} }
+func newEnv() *env { return &env{base: map[string]*hx.World{}} }
 
 func (e *env) close() {
 	if e.tmpRoot != "" {
@@ -138,16 +152,16 @@ func (e *env) tmp() string {
 	return e.tmpRoot
 }
 
-func (e *env) baseWorld() *hx.World {
-	if e.base == nil {
-		w := hx.NewWorld("secrets")
+func (e *env) baseWorld(drv string) *hx.World {
+	if e.base[drv] == nil {
+		w := hx.NewWorld(drv)
 		r := w.Exec(hx.Op{Kind: "install", Release: "r", Chart: newChart("rootc")}, nil)
 		if r.Failed {
 			panic("c14: base install failed: " + r.Err)
 		}
-		e.base = w
+		e.base[drv] = w
 	}
-	return e.base.Clone()
+	return e.base[drv].Clone()
 }
 
 func addRaw(ch *chart.Chart) {
@@ -167,11 +181,20 @@ func (e *env) chartDir(spec *hx.ChartSpec) string {
 	if string(b) == e.lintKey {
 		return e.lintDir
 	}
-	if e.lintDir != "" {
-		os.RemoveAll(filepath.Dir(e.lintDir))
+	// one directory per worker; between charts the files are unlinked (not
+	// truncated in place: truncate-and-rewrite is 100x slower than
+	// unlink-and-create on this filesystem), directories are kept
+	base := filepath.Join(e.tmp(), "lint")
+	filepath.WalkDir(base, func(p string, d os.DirEntry, _ error) error {
+		if d != nil && !d.IsDir() {
+			os.Remove(p)
+		}
+		return nil
+	})
+	if sh := shapeOf(spec); sh != e.lintShape {
+		os.RemoveAll(base)
+		e.lintShape = sh
 	}
-	e.lintN++
-	base := filepath.Join(e.tmp(), "c"+strconv.Itoa(e.lintN))
 	ch := spec.Build()
 	addRaw(ch)
 	if err := chartutil.SaveDir(ch, base); err != nil {
@@ -179,6 +202,15 @@ func (e *env) chartDir(spec *hx.ChartSpec) string {
 	}
 	e.lintKey, e.lintDir = string(b), filepath.Join(base, spec.Name)
 	return e.lintDir
+}
+
+// shapeOf identifies the set of files a chart tree is written to.
+func shapeOf(s *hx.ChartSpec) string {
+	sh := fmt.Sprintf("%s(schema=%v,crds=%v", s.Name, s.Schema != "", s.CRDs)
+	for _, x := range s.Subcharts {
+		sh += "," + shapeOf(x)
+	}
+	return sh + ")"
 }
 
 func stripSchemas(s *hx.ChartSpec) *hx.ChartSpec {
@@ -200,10 +232,7 @@ func flatten(prefix string, m map[string]any, out *[]string) {
 		}
 		switch x := m[k].(type) {
 		case map[string]any:
-			if len(x) == 0 {
-				panic("c14: empty table cannot be written with --set")
-			}
-			flatten(p, x, out)
+			flatten(p, x, out) // an empty table has no --set spelling; absent and empty sections coalesce alike
 		case string:
 			*out = append(*out, p+"="+x)
 		case bool:
@@ -246,10 +275,23 @@ func sentOrStored(res hx.Result) []string {
 	var out []string
 	for _, en := range res.Log {
 		if en.Mutating() || strings.HasSuffix(en.Class, "-write") {
-			out = append(out, en.Verb+" "+en.Path)
+			if en.Path == "" { // memory driver: no path, the label says what was written
+				out = append(out, en.Label)
+			} else {
+				out = append(out, en.Verb+" "+en.Path)
+			}
 		}
 	}
 	return out
+}
+
+// sentTag shortens "POST /apis/g/v1/things" to POST_things and "store:Create r.v1" to store:Create.
+func sentTag(s string) string {
+	f := strings.Fields(s)
+	if len(f) >= 2 && strings.HasPrefix(f[1], "/") {
+		return f[0] + "_" + f[1][strings.LastIndex(f[1], "/")+1:]
+	}
+	return f[0]
 }
 
 // runCase executes one case on the real code and judges it.
@@ -289,16 +331,16 @@ func (e *env) runCase(cs Case) (o outcome) {
 		var w *hx.World
 		switch cs.Entry {
 		case "install":
-			w, op.Kind = hx.NewWorld("secrets"), "install"
+			w, op.Kind = hx.NewWorld(cs.driver()), "install"
 		case "install-dry":
-			w, op.Kind, op.DryRun = hx.NewWorld("secrets"), "install", true
+			w, op.Kind, op.DryRun = hx.NewWorld(cs.driver()), "install", true
 		case "template":
-			w, op.Kind, op.DryRun, op.ClientOnly = hx.NewWorld("secrets"), "install", true, true
+			w, op.Kind, op.DryRun, op.ClientOnly = hx.NewWorld(cs.driver()), "install", true, true
 		case "upgrade":
-			w, op.Kind = e.baseWorld(), "upgrade"
+			w, op.Kind = e.baseWorld(cs.driver()), "upgrade"
 		case "upgrade-reuse":
 			// the previous revision stored the user's values (its chart had no schema); the upgrade passes none
-			w = hx.NewWorld("secrets")
+			w = hx.NewWorld(cs.driver())
 			r := w.Exec(hx.Op{Kind: "install", Release: "r", Chart: stripSchemas(cs.Chart), Values: copyMap(user)}, nil)
 			if r.Failed {
 				o.Findings = append(o.Findings, finding{Kind: "unexpected-error", Text: "preparing install: " + r.Err})
@@ -308,15 +350,20 @@ func (e *env) runCase(cs Case) (o outcome) {
 		default:
 			panic("entry " + cs.Entry)
 		}
-		before, histBefore := w.Canon(), len(w.History("r"))
+		before, histBefore := "", 0
+		if expectReject {
+			before, histBefore = w.Canon(), len(w.History("r"))
+		}
 		res := w.Exec(op, nil)
 		o.Failed, o.Err, o.Sent = res.Failed, res.Err, sentOrStored(res)
-		if after := w.Canon(); after != before {
-			stateChanged = "cluster/storage content changed"
-		} else if n := len(w.History("r")); n != histBefore {
-			stateChanged = fmt.Sprintf("history length %d -> %d", histBefore, n)
+		if expectReject {
+			if after := w.Canon(); after != before {
+				stateChanged = "cluster/storage content changed"
+			} else if n := len(w.History("r")); n != histBefore {
+				stateChanged = fmt.Sprintf("history length %d -> %d", histBefore, n)
+			}
 		}
-		if h := w.History("r"); cs.Entry == "install" && len(h) == 1 && h[0].Info.Status.String() == "deployed" {
+		if cs.Entry == "install" && !res.Failed && res.Release != nil && res.Release.Info.Status.String() == "deployed" && len(o.Sent) > 0 {
 			o.Deployed = true
 		}
 	}
@@ -345,9 +392,10 @@ func (e *env) runCase(cs Case) (o outcome) {
 				add("unnamed-chart", "error does not name the chart: "+oneLine(o.Err))
 			}
 		}
-		if len(o.Sent) > 0 {
+		if len(o.Sent) > 0 && o.Failed { // (an accepted invalid case sends, of course: reported once, above)
 			add("sent-before-reject", "requests/records written: "+strings.Join(o.Sent, ", "))
-		} else if stateChanged != "" {
+			o.Findings[len(o.Findings)-1].Sent = sentTag(o.Sent[0])
+		} else if stateChanged != "" && o.Failed {
 			add("state-changed", stateChanged)
 		}
 		return o
@@ -393,15 +441,52 @@ func oneLine(s string) string {
 }
 
 func keyOf(cs Case, f finding) string {
-	switch f.Kind {
-	case "rejected-valid":
-		return core.SanitizeKey(fmt.Sprintf("%s/%s/%s/route=%s", f.Kind, cs.entryName(), cs.Class, cs.Route))
-	case "skip-not-honoured":
-		return core.SanitizeKey(fmt.Sprintf("%s/%s/%s", f.Kind, cs.entryName(), cs.Class))
-	case "sent-before-reject", "state-changed":
-		return core.SanitizeKey(fmt.Sprintf("%s/%s/%s", f.Kind, cs.entryName(), cs.Placement))
+	k := fmt.Sprintf("%s/%s/%s", f.Kind, cs.entryName(), cs.Class)
+	if f.Sent != "" {
+		k += "/" + f.Sent
 	}
-	return core.SanitizeKey(fmt.Sprintf("%s/%s/%s/src=%s", f.Kind, cs.entryName(), cs.Class, f.Src))
+	if f.Rep != "" {
+		k += "/rep=" + f.Rep
+	}
+	return core.SanitizeKey(k)
+}
+
+// judge runs a case and, for a failing case whose user values are not plain
+// float64 maps, re-runs it with plain ones: if the finding persists the
+// representation is not what matters and stays out of the key.
+func (e *env) judge(cs Case) outcome {
+	o := e.runCase(cs)
+	if len(o.Findings) == 0 || (cs.CLI == "" && cs.Layers.URep == "") {
+		return o
+	}
+	plain := cs
+	plain.CLI, plain.Layers.URep = "", ""
+	plain.User = plainFloats(decodeTyped(cs.User))
+	po := e.runCase(plain)
+	for i, f := range o.Findings {
+		persists := false
+		for _, pf := range po.Findings {
+			persists = persists || pf.Kind == f.Kind
+		}
+		if !persists {
+			o.Findings[i].Rep = cs.Route
+		}
+	}
+	return o
+}
+
+func plainFloats(v any) any {
+	if m, ok := v.(map[string]any); ok {
+		c := map[string]any{}
+		for k, x := range m {
+			c[k] = plainFloats(x)
+		}
+		return c
+	}
+	if f, ok := num(v); ok {
+		return f
+	}
+	return v
 }
 
 func what(cs Case, o outcome, f finding) string {
@@ -413,6 +498,9 @@ func what(cs Case, o outcome, f finding) string {
 		}
 		ref = "reference: " + strings.Join(parts, "; ")
 	}
+	if f.Src != "-" {
+		ref += " (offending value from layer " + f.Src + ")"
+	}
 	return fmt.Sprintf("%s [%s, schema %s, route %s] chart %s user-values %s: %s; %s", cs.entryName(), cs.Placement, cs.Body, cs.Route, cs.Chart.ID(), show(o.User), f.Text, ref)
 }
 
@@ -423,7 +511,7 @@ func replay(c *core.Ctx, data json.RawMessage) []core.Violation {
 	}
 	e := newEnv()
 	defer e.close()
-	o := e.runCase(rd.Case)
+	o := e.judge(rd.Case)
 	for _, f := range o.Findings {
 		if f.Kind == "unexpected-error" {
 			continue
@@ -436,10 +524,11 @@ func replay(c *core.Ctx, data json.RawMessage) []core.Violation {
 // ---------- enumeration ----------
 
 type unit struct {
-	Part  string
-	B     body
-	P     placement
-	Trees []vtree
+	Part   string
+	B      body
+	P      placement
+	Trees  []vtree
+	Driver string
 }
 
 func hasChartLayers(L layers) bool {
@@ -468,7 +557,7 @@ func units(thorough bool) []unit {
 			for _, c := range contents(thorough) {
 				ts = append(ts, routes(c, len(p.Chain)-1, false)...)
 			}
-			out = append(out, unit{"A", b, p, orderTrees(ts)})
+			out = append(out, unit{Part: "A", B: b, P: p, Trees: orderTrees(ts)})
 		}
 	}
 	// Part B: reduced family x every placement x reduced contents x every route
@@ -481,13 +570,30 @@ func units(thorough bool) []unit {
 			for _, c := range reducedContents() {
 				ts = append(ts, routes(c, len(p.Chain)-1, true)...)
 			}
-			out = append(out, unit{"B", b, p, orderTrees(ts)})
+			out = append(out, unit{Part: "B", B: b, P: p, Trees: orderTrees(ts)})
 		}
 	}
 	// Part C: globals
 	for _, b := range globalBodies() {
 		for _, pn := range []string{"sub", "leaf", "sub-off-by-default", "sub-alias", "sub-on-by-user"} {
-			out = append(out, unit{"C", b, byName[pn], orderTrees(globalTrees())})
+			out = append(out, unit{Part: "C", B: b, P: byName[pn], Trees: orderTrees(globalTrees())})
+		}
+	}
+	// Part D: the other storage drivers
+	dBodies := bodiesReduced(false)
+	if !thorough {
+		dBodies = dBodies[:5]
+	}
+	for _, drv := range []string{"secrets", "configmaps"} {
+		for _, b := range dBodies {
+			for _, pn := range []string{"root", "sub", "root-crds"} {
+				p := byName[pn]
+				var ts []vtree
+				for _, c := range reducedContents() {
+					ts = append(ts, routes(c, len(p.Chain)-1, false)...)
+				}
+				out = append(out, unit{Part: "D", B: b, P: p, Trees: orderTrees(ts), Driver: drv})
+			}
 		}
 	}
 	return out
@@ -497,10 +603,12 @@ func entriesFor(part string, thorough bool, vt vtree) []string {
 	var out []string
 	for _, en := range entriesAll {
 		switch {
+		case part == "D" && (en == "lint" || en == "template" || en == "install-dry"):
+			continue // part D is about the storage driver: entries that can write to it
 		case en == "upgrade-reuse" && part == "A":
 			continue // the stored-values path is a route question: parts B and C
-		case en == "lint" && part == "A" && !thorough && vt.Route == "U":
-			continue // quick: part A meets lint through the defaults route only (lint is 3-5x slower)
+		case en == "lint" && part == "A" && !thorough && vt.Route != "U":
+			continue // quick: part A meets lint through the user-values route only (writing a chart per content is 5x slower than a run); part B covers lint on every route
 		}
 		out = append(out, en)
 	}
@@ -516,6 +624,7 @@ func constrains(schemaText string) bool {
 }
 
 func run(c *core.Ctx) {
+	klog.SetLogger(logr.Discard()) // client-go complains on stderr about the sim's missing discovery endpoints on every operation
 	th := c.Thorough()
 	e := newEnv()
 	defer e.close()
@@ -530,9 +639,21 @@ func run(c *core.Ctx) {
 	c.Bound("schemas-reduced", strconv.Itoa(len(bodiesReduced(th))+len(rootAPBodies(th))))
 	c.Bound("contents-full", strconv.Itoa(len(contents(th))))
 	c.Bound("placements", strconv.Itoa(len(placements())))
-	c.Bound("pairs", fmt.Sprintf("A=%d B=%d C=%d", nPairs["A"], nPairs["B"], nPairs["C"]))
+	c.Bound("pairs", fmt.Sprintf("A=%d B=%d C=%d D=%d", nPairs["A"], nPairs["B"], nPairs["C"], nPairs["D"]))
 	c.Bound("entries", strings.Join(entriesAll, ",")+" x skip{off,on}")
+	smoke := map[string]bool{bodiesReduced(false)[1].ID: true, bodiesReduced(false)[7].ID: true, bodiesReduced(false)[10].ID: true}
 	for _, u := range us {
+		switch c.Only { // debugging aid: --only A|B|C|D runs one part, --only smoke three schemas of part B
+		case "":
+		case "smoke":
+			if u.Part != "B" || !smoke[u.B.ID] {
+				continue
+			}
+		default:
+			if u.Part != c.Only {
+				continue
+			}
+		}
 		if !c.NextMine() {
 			continue
 		}
@@ -545,13 +666,13 @@ func run(c *core.Ctx) {
 			for _, en := range entriesFor(u.Part, th, vt) {
 				for _, skip := range []bool{false, true} {
 					cs := Case{Part: u.Part, Placement: u.P.Name, Class: u.P.Class, Body: u.B.ID, Route: vt.Route, Layers: vt.L,
-						Chart: spec, User: encodeTyped(user), CLI: vt.L.CLI, Entry: en, Skip: skip}
-					o := e.runCase(cs)
+						Chart: spec, User: encodeTyped(user), CLI: vt.L.CLI, Entry: en, Skip: skip, Driver: u.Driver}
+					o := e.judge(cs)
 					c.Eval(1)
 					c.Count("runs:"+en, 1)
 					c.Count("runs:part"+u.Part, 1)
 					if nontrivial {
-						c.Distinct(u.B.Text + "|" + u.P.Name + "|" + vt.Route + "|" + show(layersCanon(vt.L)) + "|" + cs.entryName())
+						c.Distinct(u.B.Text + "|" + u.P.Name + "|" + vt.Route + "|" + show(layersCanon(vt.L)) + "|" + cs.entryName() + "|" + u.Driver)
 					}
 					class := classify(c, cs, o)
 					c.Outcome(class)
